@@ -299,3 +299,49 @@ class iname_encode_into(Contract):
                 isinstance(db, View), *( [Eq(db.cell, wire.cell), zint(db.start) - zint(wire.start) == digest_at, zint(db.length) == 32]
                                          if isinstance(db, View) else [False])))
         return out
+
+
+def _iname_result(c, cx, self, val, markers, wire, offset):
+    """call-site summary of InterestNameField.encode_into (same facts as its verified postcondition)"""
+    run = cx.run
+    name = markers[key(self, 'preprocessed_name')]
+    dp = markers[key(self, 'digest_pos')]
+    dp = dp if isinstance(dp, OptInt) else (OptInt(True, 0) if dp is None else OptInt(False, dp))
+    L = markers[key(self, 'encoded_length')]
+    need = get_arg(A(self, 'need_digest'), markers)
+    lst = get_arg(A(self, 'sig_covered_part'), markers)
+    n = simp(1 + tlsize(L) + zint(L))
+    run.assume(zint(offset) + n <= zint(wire.length))          # a normal return means everything fitted
+    run.havoc_range(wire, offset, n, 'iname')
+    run.assume(bytes_in_range(cx.heap, wire, offset, 10))
+    base = simp(zint(offset) + 1 + tlsize(L))
+    total = name.total()
+
+    def view(st, ln):
+        return View(wire.cell, simp(zint(wire.start) + st), simp(ln), 'memoryview', True)
+    if run.branch(dp.isnone, 'no digest component in the name'):
+        if run.branch(total > 0, 'name has components'):
+            lst.append(view(base, total))
+        digest_at = simp(base + total + 2)
+        if cx.it.truth(need) is not False and run.branch(cx.it.truth(need), 'digest needed'):
+            name.append(cx.it, view(base + total, 34))
+            markers[arg_key(A(self, 'digest_buffer'))] = view(digest_at, 32)
+    else:
+        before = name.psum(dp.val)
+        run.assume(z3.Select(name.lens, zint(dp.val)) == 34)
+        if run.branch(before > 0, 'components in front of the digest'):
+            lst.append(view(base, before))
+        rest = simp(total - before - 34)
+        if run.branch(rest > 0, 'components after the digest'):
+            lst.append(view(base + before + 34, rest))
+        markers[arg_key(A(self, 'digest_buffer'))] = view(base + before + 2, 32)
+    return n
+
+
+def _iname_post_assumed(c, cx, result, self, val, markers, wire, offset):
+    L = markers[key(self, 'encoded_length')]
+    return {'t': wire.at(cx.heap, offset) == TYPE_NAME, 'l': tlenc_at(cx.heap, wire, simp(zint(offset) + 1), L)}
+
+
+iname_encode_into.result = _iname_result
+iname_encode_into.post_assumed = _iname_post_assumed
